@@ -109,6 +109,12 @@ func c07Specs(c *run.Ctx) []built {
 		spec.Spec{Name: "c07-style-attr-vs-style-rules", Base: "new", Calls: []C{els("p", "span", "b"), attrsOn([]string{"style", "title"}, "", "p", "b"),
 			{Op: "AllowStyles", Names: []string{"color"}, Scope: "on", On: []string{"span"}},
 			{Op: "AllowStyles", Names: []string{"width"}, Enum: []string{"1px"}, Scope: "matching", OnRe: reMy}, {Op: "AllowElementsMatching", Re: reMy}}},
+		// custom matchers bound through an element pattern whose accepted values no default handler accepts
+		spec.Spec{Name: "c07-style-pattern-custom-values", Base: "new", Calls: []C{els("p"), {Op: "AllowElementsMatching", Re: reMy},
+			{Op: "AllowStyles", Names: []string{"color"}, Enum: []string{"brandcolor", "var(--brand)"}, Scope: "matching", OnRe: reMy},
+			{Op: "AllowStyles", Names: []string{"accent-color"}, Enum: []string{"teal"}, Scope: "matching", OnRe: reMy},
+			{Op: "AllowStyles", Names: []string{"width"}, Handler: "alpha-only", Scope: "matching", OnRe: reMy},
+			{Op: "AllowStyles", Names: []string{"color"}, Enum: []string{"brandcolor"}, Scope: "on", On: []string{"p"}}}},
 		spec.Spec{Name: "c07-unsafe-script-style", Base: "new", Calls: []C{opt("AllowUnsafe", true), els("script", "style", "p"), attrsOn([]string{"type"}, "", "script", "style")}},
 		spec.Spec{Name: "c07-styles-overlap", Base: "new", Calls: []C{els("p", "span"),
 			{Op: "AllowStyles", Names: []string{"color"}, Handler: "is-red", Scope: "global"},
